@@ -707,7 +707,7 @@ func c20Replay(ctx *core.Ctx, c c20Case) {
 		for len(h) < 10 {
 			h = append(h, histAlphabet[r.Intn(len(histAlphabet))])
 		}
-		hc := hcase{Mode: cf.Mode, MaxRcpt: cf.MaxRcpt, Hist: h, Disc: "pipe", CutSeed: c.Seed}
+		hc := hcase{Mode: cf.Mode, MaxRcpt: cf.MaxRcpt, MaxBytes: cf.MaxBytes, Hist: h, Disc: "pipe", CutSeed: c.Seed}
 		histExecBurst(hc)
 		histExecLock(hc)
 	case 1:
